@@ -1,0 +1,310 @@
+/*
+ * Verification facade: codec, validation, alias-resolver and table entry points.
+ * Only compiled with the `verif` feature.
+ */
+
+use super::text::*;
+use crate::alias::*;
+use crate::client::config::*;
+use crate::client::NegotiatedSettings;
+use crate::decode::*;
+use crate::encode::*;
+use crate::error::GneissResult;
+use crate::mqtt::*;
+use crate::protocol::does_packet_pass_offline_queue_policy;
+use crate::validate::*;
+
+use std::collections::VecDeque;
+
+pub(crate) fn version_of(kv: &Kv) -> Result<ProtocolVersion, String> {
+    match get(kv, "v") {
+        Some("311") => Ok(ProtocolVersion::Mqtt311),
+        Some("5") | None => Ok(ProtocolVersion::Mqtt5),
+        Some(other) => Err(format!("bad version {}", other)),
+    }
+}
+
+fn resolution_of(kv: &Kv) -> Result<OutboundAliasResolution, String> {
+    Ok(OutboundAliasResolution {
+        skip_topic: get_bool(kv, "skip")?.unwrap_or(false),
+        alias: get_num::<u16>(kv, "alias")?,
+    })
+}
+
+pub(crate) fn result_text(result: &GneissResult<()>) -> String {
+    match result {
+        Ok(()) => "ok".to_string(),
+        Err(e) => format!("err:{}", error_kind(e)),
+    }
+}
+
+/// `encode v=5 skip=0 alias=3 caps=16,4:1,... | <packet>`; each capacity is `cap` or `cap:prefill`.
+/// The last capacity is repeated until the packet is complete (bounded).
+pub(crate) fn cmd_encode(args: &str, packet_text: &str) -> Result<String, String> {
+    let (_, kv) = split_kv(args);
+    let packet = parse_packet(packet_text)?;
+    let context = EncodingContext { outbound_alias_resolution: resolution_of(&kv)?, protocol_version: version_of(&kv)? };
+    let mut caps: Vec<(usize, usize)> = Vec::new();
+    for item in get(&kv, "caps").unwrap_or("4096").split(',') {
+        let mut it = item.split(':');
+        let cap = it.next().unwrap_or("").parse::<usize>().map_err(|_| "bad cap".to_string())?;
+        let prefill = it.next().unwrap_or("0").parse::<usize>().map_err(|_| "bad prefill".to_string())?;
+        caps.push((cap, prefill));
+    }
+    if caps.is_empty() {
+        return Err("no caps".to_string());
+    }
+
+    let mut encoder = Encoder::new();
+    if let Err(e) = encoder.reset(&packet, &context) {
+        return Ok(format!("res=err:{} chunks=", error_kind(&e)));
+    }
+
+    let mut chunks: Vec<String> = Vec::new();
+    let mut index = 0usize;
+    let mut rounds = 0usize;
+    loop {
+        let (cap, prefill) = caps[usize::min(index, caps.len() - 1)];
+        index += 1;
+        rounds += 1;
+        if rounds > 2_000_000 {
+            return Ok(format!("res=stuck chunks={}", chunks.join(",")));
+        }
+        let mut dest: Vec<u8> = Vec::with_capacity(cap);
+        dest.resize(usize::min(prefill, cap), 0xEE);
+        let before = dest.len();
+        match encoder.encode(&packet, &mut dest) {
+            Ok(EncodeResult::Complete) => {
+                chunks.push(hex(&dest[before..]));
+                return Ok(format!("res=ok chunks={}", chunks.join(",")));
+            }
+            Ok(EncodeResult::Full) => {
+                chunks.push(hex(&dest[before..]));
+            }
+            Err(e) => {
+                chunks.push(hex(&dest[before..]));
+                return Ok(format!("res=err:{} chunks={}", error_kind(&e), chunks.join(",")));
+            }
+        }
+    }
+}
+
+/// `decode v=5 max=0 chunks=x..,x..` -> `res=ok n=2 | <packet> | <packet>`
+pub(crate) fn cmd_decode(args: &str) -> Result<String, String> {
+    let (_, kv) = split_kv(args);
+    let version = version_of(&kv)?;
+    let max = req_num::<u32>(&kv, "max")?;
+    let mut decoder = Decoder::new();
+    decoder.reset_for_new_connection();
+    let mut packets: VecDeque<Box<MqttPacket>> = VecDeque::new();
+    let mut verdict = "ok".to_string();
+    for chunk in get(&kv, "chunks").unwrap_or("").split(',').filter(|c| !c.is_empty()) {
+        let bytes = unhex(chunk)?;
+        let mut context = DecodingContext { maximum_packet_size: max, protocol_version: version, decoded_packets: &mut packets };
+        if let Err(e) = decoder.decode_bytes(&bytes, &mut context) {
+            verdict = format!("err:{}", error_kind(&e));
+            // keep feeding: a terminal decoder must stay terminal
+        } else if verdict != "ok" {
+            verdict = "recovered-after-error".to_string();
+        }
+    }
+    let mut out = format!("res={} n={}", verdict, packets.len());
+    for p in packets.iter() {
+        out.push_str(" | ");
+        out.push_str(&print_packet(p));
+    }
+    Ok(out)
+}
+
+pub(crate) fn settings_of(kv: &Kv) -> Result<NegotiatedSettings, String> {
+    Ok(NegotiatedSettings {
+        maximum_qos: QualityOfService::try_from(get_num::<u8>(kv, "mq")?.unwrap_or(2)).map_err(|_| "bad mq".to_string())?,
+        session_expiry_interval: get_num::<u32>(kv, "nsei")?.unwrap_or(0),
+        receive_maximum_from_server: get_num::<u16>(kv, "rm")?.unwrap_or(65535),
+        maximum_packet_size_to_server: get_num::<u32>(kv, "mps")?.unwrap_or(MAXIMUM_VARIABLE_LENGTH_INTEGER as u32),
+        topic_alias_maximum_to_server: get_num::<u16>(kv, "tam")?.unwrap_or(0),
+        server_keep_alive: get_num::<u16>(kv, "ska")?.unwrap_or(0),
+        retain_available: get_bool(kv, "ra")?.unwrap_or(true),
+        wildcard_subscriptions_available: get_bool(kv, "wsa")?.unwrap_or(true),
+        subscription_identifiers_available: get_bool(kv, "sia")?.unwrap_or(true),
+        shared_subscriptions_available: get_bool(kv, "ssa")?.unwrap_or(true),
+        rejoined_session: get_bool(kv, "rejoined")?.unwrap_or(false),
+        client_id: get_str(kv, "ncid")?.unwrap_or_default(),
+    })
+}
+
+pub(crate) fn cmd_validate_outbound(packet_text: &str) -> Result<String, String> {
+    let packet = parse_packet(packet_text)?;
+    Ok(format!("res={}", result_text(&validate_packet_outbound(&packet))))
+}
+
+/// `validate.outint mps=.. mq=.. ra=.. wsa=.. sia=.. ssa=.. csei=.. skip=.. alias=.. | <packet>`
+pub(crate) fn cmd_validate_outbound_internal(args: &str, packet_text: &str) -> Result<String, String> {
+    let (_, kv) = split_kv(args);
+    let packet = parse_packet(packet_text)?;
+    let settings = settings_of(&kv)?;
+    let mut connect_builder = ConnectOptions::builder();
+    if let Some(sei) = get_num::<u32>(&kv, "csei")? {
+        connect_builder.with_session_expiry_interval_seconds(sei);
+    }
+    let connect_options = connect_builder.build();
+    let mut context = OutboundValidationContext {
+        negotiated_settings: Some(&settings),
+        connect_options: Some(&connect_options),
+        outbound_alias_resolution: None,
+    };
+    if get(&kv, "skip").is_some() || get(&kv, "alias").is_some() {
+        context.outbound_alias_resolution = Some(resolution_of(&kv)?);
+    }
+    Ok(format!("res={}", result_text(&validate_packet_outbound_internal(&packet, &context))))
+}
+
+pub(crate) fn cmd_validate_inbound_internal(args: &str, packet_text: &str) -> Result<String, String> {
+    let (_, kv) = split_kv(args);
+    let packet = parse_packet(packet_text)?;
+    let settings = settings_of(&kv)?;
+    let context = InboundValidationContext { negotiated_settings: Some(&settings) };
+    Ok(format!("res={}", result_text(&validate_packet_inbound_internal(&packet, &context))))
+}
+
+pub(crate) fn cmd_vli_size(args: &str) -> Result<String, String> {
+    let (_, kv) = split_kv(args);
+    let n = req_num::<usize>(&kv, "n")?;
+    match compute_variable_length_integer_encode_size(n) {
+        Ok(size) => Ok(format!("res=ok size={}", size)),
+        Err(e) => Ok(format!("res=err:{}", error_kind(&e))),
+    }
+}
+
+pub(crate) fn cmd_vli_decode(args: &str) -> Result<String, String> {
+    let (_, kv) = split_kv(args);
+    let bytes = get_bin(&kv, "b")?.unwrap_or_default();
+    match decode_vli(&bytes) {
+        Ok(DecodeVliResult::InsufficientData) => Ok("res=ok insufficient".to_string()),
+        Ok(DecodeVliResult::Value(v, rest)) => Ok(format!("res=ok value={} rest={}", v, hex(rest))),
+        Err(e) => Ok(format!("res=err:{}", error_kind(&e))),
+    }
+}
+
+pub(crate) fn policy_of(name: &str) -> Result<OfflineQueuePolicy, String> {
+    match name {
+        "all" => Ok(OfflineQueuePolicy::PreserveAll),
+        "acked" => Ok(OfflineQueuePolicy::PreserveAcknowledged),
+        "qos1plus" => Ok(OfflineQueuePolicy::PreserveQos1PlusPublishes),
+        "nothing" => Ok(OfflineQueuePolicy::PreserveNothing),
+        _ => Err(format!("bad policy {}", name)),
+    }
+}
+
+pub(crate) fn cmd_policy(args: &str, packet_text: &str) -> Result<String, String> {
+    let (_, kv) = split_kv(args);
+    let packet = parse_packet(packet_text)?;
+    let policy = policy_of(get(&kv, "policy").unwrap_or("all"))?;
+    Ok(format!("res=ok pass={}", if does_packet_pass_offline_queue_policy(&packet, &policy) { 1 } else { 0 }))
+}
+
+fn accepted_codes(name: &str) -> Result<Vec<String>, String> {
+    let mut out = Vec::new();
+    for v in 0..=255u8 {
+        let back: Option<u8> = match name {
+            "connect" => ConnectReasonCode::try_from(v).ok().map(|c| c as u8),
+            "puback" => PubackReasonCode::try_from(v).ok().map(|c| c as u8),
+            "pubrec" => PubrecReasonCode::try_from(v).ok().map(|c| c as u8),
+            "pubrel" => PubrelReasonCode::try_from(v).ok().map(|c| c as u8),
+            "pubcomp" => PubcompReasonCode::try_from(v).ok().map(|c| c as u8),
+            "disconnect" => DisconnectReasonCode::try_from(v).ok().map(|c| c as u8),
+            "suback" => SubackReasonCode::try_from(v).ok().map(|c| c as u8),
+            "unsuback" => UnsubackReasonCode::try_from(v).ok().map(|c| c as u8),
+            "auth" => AuthenticateReasonCode::try_from(v).ok().map(|c| c as u8),
+            "qos" => QualityOfService::try_from(v).ok().map(|c| c as u8),
+            "pfi" => PayloadFormatIndicator::try_from(v).ok().map(|c| c as u8),
+            "connect311" => convert_311_encoding_to_connect_reason_code(v).ok().map(|c| c as u8),
+            "suback311" => convert_311_encoding_to_suback_reason_code(v).ok().map(|c| c as u8),
+            _ => {
+                return Err(format!("unknown table {}", name));
+            }
+        };
+        if let Some(b) = back {
+            out.push(format!("{}:{}", v, b));
+        }
+    }
+    Ok(out)
+}
+
+/// `table name=<enum>` -> `res=ok entries=v:back,v:back,...` (complete domain 0..=255)
+pub(crate) fn cmd_table(args: &str) -> Result<String, String> {
+    let (_, kv) = split_kv(args);
+    let name = get(&kv, "name").unwrap_or("");
+    Ok(format!("res=ok entries={}", accepted_codes(name)?.join(",")))
+}
+
+pub(crate) struct AliasSession {
+    pub(crate) outbound: Option<Box<dyn OutboundAliasResolver + Send>>,
+    pub(crate) inbound: Option<InboundAliasResolver>,
+}
+
+impl AliasSession {
+    pub(crate) fn new() -> Self {
+        AliasSession { outbound: None, inbound: None }
+    }
+}
+
+pub(crate) fn resolver_factory_of(kind: &str, max: u16) -> Result<Option<OutboundAliasResolverFactoryFn>, String> {
+    match kind {
+        "none" => Ok(None),
+        "null" => Ok(Some(OutboundAliasResolverFactory::new_null_factory())),
+        "manual" => Ok(Some(OutboundAliasResolverFactory::new_manual_factory())),
+        "lru" => Ok(Some(OutboundAliasResolverFactory::new_lru_factory(max))),
+        _ => Err(format!("bad resolver kind {}", kind)),
+    }
+}
+
+pub(crate) fn cmd_alias(session: &mut AliasSession, verb: &str, args: &str) -> Result<String, String> {
+    let (_, kv) = split_kv(args);
+    match verb {
+        "alias.out.new" => {
+            let kind = get(&kv, "kind").unwrap_or("null");
+            let max = req_num::<u16>(&kv, "max")?;
+            session.outbound = resolver_factory_of(kind, max)?.map(|f| f());
+            Ok("res=ok".to_string())
+        }
+        "alias.out.reset" => {
+            let max = req_num::<u16>(&kv, "max")?;
+            if let Some(r) = &mut session.outbound {
+                r.reset_for_new_connection(max);
+            }
+            Ok("res=ok".to_string())
+        }
+        "alias.out.resolve" => {
+            let alias = get_num::<u16>(&kv, "alias")?;
+            let topic = get_str(&kv, "topic")?.unwrap_or_default();
+            let r = session.outbound.as_mut().ok_or("no resolver")?;
+            let resolution = r.resolve_and_apply_topic_alias(&alias, &topic);
+            let mut out = format!("res=ok skip={}", if resolution.skip_topic { 1 } else { 0 });
+            if let Some(a) = resolution.alias {
+                out.push_str(&format!(" alias={}", a));
+            }
+            Ok(out)
+        }
+        "alias.in.new" => {
+            session.inbound = Some(InboundAliasResolver::new(req_num::<u16>(&kv, "max")?));
+            Ok("res=ok".to_string())
+        }
+        "alias.in.reset" => {
+            if let Some(r) = &mut session.inbound {
+                r.reset_for_new_connection();
+            }
+            Ok("res=ok".to_string())
+        }
+        "alias.in.resolve" => {
+            let alias = get_num::<u16>(&kv, "alias")?;
+            let mut topic = get_str(&kv, "topic")?.unwrap_or_default();
+            let r = session.inbound.as_mut().ok_or("no resolver")?;
+            match r.resolve_topic_alias(&alias, &mut topic) {
+                Ok(()) => Ok(format!("res=ok topic={}", hex(topic.as_bytes()))),
+                Err(e) => Ok(format!("res=err:{}", error_kind(&e))),
+            }
+        }
+        _ => Err(format!("unknown alias verb {}", verb)),
+    }
+}
